@@ -40,7 +40,7 @@ func init() {
 	reg(&Property{
 		ID: "C01",
 		Explanation: "Decides on every path of the memory driver: S1 the seven indexes are written, deleted and read under the same keys (bucket key signature and element key = full triple UUID agree between AddTriples, RemoveTriples and each of the twelve readers; each index is freshly allocated per graph and no package-level map exists); S2 create/get/drop of a graph name test presence first and fail without effect otherwise; S3 every access to the namespace map and the indexes holds the owner's lock in the required mode. The identity clause is C06's rule H2. Not decided: set semantics over histories as such.",
-		Rules:       []func(*Ctx){ruleS1, ruleS1x, ruleS2, ruleS3, ruleS7},
+		Rules:       []func(*Ctx){ruleS1, ruleS1x, ruleS2, ruleS2y, ruleS3, ruleS7},
 		Level:       "index key agreement between writer, deleter and readers (S1), guarded namespace operations (S2), lockset (S3), batch atomicity (S7)",
 		Trusted:     []string{"Go map semantics", "guard table of S3", trustedCore},
 		NotDecided:  []string{"set semantics over arbitrary histories as such (follows from map semantics once S1 holds, but no rule states it)", "idempotence of re-add / absent-remove", "independence of graphs beyond per-graph allocation of every index", "injectivity of the identity hashes (H2 only refutes)"},
@@ -56,7 +56,7 @@ func init() {
 	reg(&Property{
 		ID: "C03",
 		Explanation: "Decides necessary conditions only: P1 in tripleToRow every row store is followed on every path by the binding-consistency check whose false edge abandons the triple, and each extraction is built from the matching part of the triple; P2 the three tables naming a clause's bindings agree with the struct; P3 on each of the eight nil-patterns simpleFetch calls the driver method whose parameters are exactly the fixed components; S10 clause-level and row-supplied bounds are treated as mirror images; L3 row values looked up with comma-ok are not dereferenced when absent; S9 kind/instant matching at the driver. Not decided: soundness/completeness of the join.",
-		Rules: []func(*Ctx){ruleP1, ruleP2, ruleP3, ruleP3b, ruleS6b, func(c *Ctx) { ruleL3b(c, "bql/planner") }, func(c *Ctx) { ruleS10(c, 3, "bql/planner", "bql/semantic", "storage/memory") },
+		Rules: []func(*Ctx){ruleP1, ruleP2, ruleP3, ruleP3b, ruleS6b, rulePO1, ruleTB1, func(c *Ctx) { ruleL3b(c, "bql/planner") }, func(c *Ctx) { ruleS10(c, 3, "bql/planner", "bql/semantic", "storage/memory") },
 			func(c *Ctx) { ruleL3(c, "bql/...") }, ruleS9},
 		Level:      "row-binding typestate (P1), table agreement (P2), dispatch by nil-pattern with edge facts (P3), bound duality (S10), comma-ok contradiction rule (L3)",
 		Trusted:    []string{"pair table of S10 (lower/upper field names)", trustedCore},
@@ -65,7 +65,7 @@ func init() {
 	reg(&Property{
 		ID: "C04",
 		Explanation: "Decides: P9 which driver mutations each statement kind can reach (lexical closures per Execute), the construct flag selecting AddTriples vs RemoveTriples, the fan-out over every target graph with the whole batch, the target list being the one the grammar puts after INTO/FROM, and Reify using one fresh blank node for its three triples; P5 the query (graph resolution) precedes the writer in CONSTRUCT/DECONSTRUCT; P8 no write error is dropped; L6 the bulk writer is joined and its channel closed on every path. Not decided: that the written set equals the stated set.",
-		Rules:       []func(*Ctx){ruleP9, ruleP9c, ruleI1, ruleP5, func(c *Ctx) { ruleP8(c, "bql/planner") }, func(c *Ctx) { ruleP8b(c, "bql/planner") }, func(c *Ctx) { ruleL6(c, 12, "bql/planner") }},
+		Rules:       []func(*Ctx){ruleP9, ruleP9c, rulePO1, ruleI1, ruleP5, func(c *Ctx) { ruleP8(c, "bql/planner") }, func(c *Ctx) { ruleP8b(c, "bql/planner") }, func(c *Ctx) { ruleL6(c, 12, "bql/planner") }},
 		Level:       "statement-kind -> effect table over the call graph with lexically bound closures (P9), dominance of stages (P5), error use (P8), join typestate (L6)",
 		Trusted:     []string{"the statement-kind -> mutation table stated by the property (frozen in rule P9)", trustedCore},
 		NotDecided:  []string{"the written set equals the stated set (template instantiation per row is value-level)", "untouched graphs beyond 'only the named lists are iterated'"},
@@ -89,7 +89,7 @@ func init() {
 	reg(&Property{
 		ID: "C07",
 		Explanation: "Decides, for every path of the analysed functions and hence every schedule that can drive them: S3 every access to a lock-guarded field (frozen guard table: memoryStore.graphs, the seven memory indexes, the five memoizer caches, Table rows/bindings) holds the owner's lock in the required mode; S4 no method re-acquires its receiver's lock through a same-receiver call; S5 every Store/Graph method with a result channel closes it exactly once on every return, error returns included; S6 no lookup (or module callee it hands the pointer to) stores through its *LookupOptions; S7 AddTriples is one critical section; S2 create/get/drop test presence under the lock; L6 planner goroutines are joined. Not decided: linearizability.",
-		Rules:       []func(*Ctx){ruleS3, ruleS4, ruleS5, ruleS6, ruleS7, ruleS2, func(c *Ctx) { ruleL6(c, 23, "bql/planner", "storage/...") }},
+		Rules:       []func(*Ctx){ruleS3, ruleS4, ruleS5, ruleS6, ruleS7, ruleS2, ruleS2y, func(c *Ctx) { ruleH3y(c) }, func(c *Ctx) { ruleL6(c, 23, "bql/planner", "storage/...") }},
 		Level:       "lockset (S3), lock re-entry (S4), close-exactly-once typestate on all returns (S5), options never written (S6), batch atomicity (S7)",
 		Trusted:     []string{"guard table of rule S3 (field -> lock; a new map/slice field on a lock-owning type is reported until added)", "tableSequentialOnly exemptions (3 Table methods, reasons in source)", trustedCore},
 		NotDecided:  []string{"linearizability of histories", "deadlocks that depend on the consumer of a result channel (lookups send while holding the read lock by design)", "panics", "data races on state outside the guard table"},
@@ -104,7 +104,7 @@ func init() {
 			func(c *Ctx) { ruleL3(c, "bql/...") }, func(c *Ctx) { ruleL3b(c, "bql/planner") },
 			func(c *Ctx) { ruleL4(c, "triple/...", "io", "bql/...", "storage/...") },
 			func(c *Ctx) { ruleL6(c, 25, "triple/...", "io", "bql/...", "storage/...") },
-			func(c *Ctx) { ruleL7(c, "bql/...", "triple/...") }, ruleP12, ruleG7, func(c *Ctx) { ruleL6c(c, "bql/planner", "io", "storage/...") }},
+			func(c *Ctx) { ruleL7(c, "bql/...", "triple/...") }, ruleP12, ruleG7, func(c *Ctx) { ruleL6c(c, "bql/planner", "io", "storage/...") }, ruleL6d},
 		Level:      "progress analysis of lexer loops and abstract interpretation of the state machine over rune classes (X1, X1b), typestate (X2, X3, L6), the Go compiler's prove pass as first-stage bounds prover plus re-verified discharge table (L1), contradiction rules (L2, L3), reachability (L4), structural recursion measure (L7)",
 		Trusted:    []string{"L1's reviewed entries (rules_bce.go l1Table, one reason and the guard facts each)", "L4's allow-list entry (rowLess, log.Fatalf)", "l2Reviewed (2 functions)", "the Go compiler's prove pass (a check it proves is in bounds)", trustedCore},
 		NotDecided: []string{"absence of all panics (nil dereferences outside L2/L3, type assertions in accumulators, driver behaviour)", "bounded running time", "behaviour of third-party drivers"},
@@ -112,7 +112,7 @@ func init() {
 	reg(&Property{
 		ID: "C09",
 		Explanation: "Decides: S8 the documented order bounds -> filter -> sort -> page, identical in all eleven lookups and with the page test guarding every send; S10 the window is closed on both sides by symmetry of the comparisons; S11 every filter operation has all its handlers (constants = SupportedOperations = String = executeFilter = planner table) and the two kind filters are twins; S12 no equality on zone-dependent renderings; S6 LatestAnchor is implemented without writing the caller's options. Not decided: paging arithmetic, ties in latest.",
-		Rules: []func(*Ctx){ruleS8, ruleS8x, func(c *Ctx) { ruleS10(c, 1, "storage/memory") }, ruleS11,
+		Rules: []func(*Ctx){ruleS8, ruleS8x, ruleS8y, func(c *Ctx) { ruleS12b(c, "storage/...", "bql/...", "triple/...") }, func(c *Ctx) { ruleS10(c, 1, "storage/memory") }, ruleS11,
 			func(c *Ctx) { ruleS12(c, "storage/memory", "storage/memoization") }, ruleS6},
 		Level:      "pipeline shape by def-use and dominance (S8), bound duality (S10), exhaustiveness tables and twin comparison (S11), direct rendering equality (S12)",
 		Trusted:    []string{"docs/support_new_filter_function.md as the oracle for the order and the recipe", trustedCore},
@@ -121,7 +121,7 @@ func init() {
 	reg(&Property{
 		ID: "C10",
 		Explanation: "Decides (P4): (a) processClause reports 'unresolvable' (which truncates the table) only on the non-optional edge; (b) the plain cross product is only taken for non-optional clauses and LeftOptionalJoin takes it only with a non-empty right table; (c) when an optional clause matches nothing for a row the row is re-added with NULL cells; (d) every skippableError return in tripleToRow is on the non-optional edge. Not decided: multiplicities of matches.",
-		Rules:       []func(*Ctx){ruleP4, ruleP4e},
+		Rules:       []func(*Ctx){ruleP4, ruleP4e, ruleP5c, rulePO1, ruleTB1},
 		Level:       "edge-fact dominance on the four places where an optional clause could drop rows (P4)",
 		Trusted:     []string{trustedCore},
 		NotDecided:  []string{"multiplicities of matches", "several optional clauses in sequence beyond each satisfying P4 individually", "joinWithRange's merge logic (value-level)"},
@@ -138,7 +138,7 @@ func init() {
 	reg(&Property{
 		ID: "C12",
 		Explanation: "Decides: P5 stage order pattern -> project/group -> order -> having -> limit, each once and dominating the next; P6 the limit is pushed into the driver only under empty GROUP BY, ORDER BY, HAVING and a single clause; P10 numeric/chronological order is not decided on renderings in the sort comparator; P12 the limit literal is an int64 and non-negative before it is stored and Table.Limit only ever receives it; P13 the comparator reads both rows under the first key, passes its direction and recurses on the remaining keys exactly on equality. Not decided: that the sort yields a sorted permutation, DESC and multi-key handling.",
-		Rules:       []func(*Ctx){ruleP5, ruleP6, func(c *Ctx) { ruleP10(c, "bql/table") }, ruleP12, ruleP12b, ruleP13},
+		Rules:       []func(*Ctx){ruleP5, ruleP6, func(c *Ctx) { ruleP10(c, "bql/table") }, ruleP12, ruleP12b, ruleP13, ruleP5c},
 		Level:       "dominance of stages (P5), guard facts at the push-down sites (P6), taint from non-order-preserving renderings to string orderings (P10), guard facts on the limit store (P12)",
 		Trusted:     []string{"sort.Sort sorts", trustedCore},
 		NotDecided:  []string{"that the result is a sorted permutation (library)", "DESC and multi-key handling", "first n rows (value-level)", "row dropping inside the clause when the limit is pushed down (PID/extraction filters)"},
@@ -146,7 +146,7 @@ func init() {
 	reg(&Property{
 		ID: "C13",
 		Explanation: "Decides: P5 HAVING is applied after grouping and before limit; P10 the HAVING evaluators do not order numbers or times by their renderings; E1 each comparisonFor* evaluator tests the cell's kind-specific field before comparing; L7 the evaluator builder's recursion terminates; L2 evaluator constructors never return (nil, nil). Not decided: truth-functional correctness of the boolean evaluator and of the hand-written expression builder.",
-		Rules:       []func(*Ctx){ruleP5, func(c *Ctx) { ruleP10(c, "bql/semantic") }, ruleE1, func(c *Ctx) { ruleL7(c, "bql/semantic") }, func(c *Ctx) { ruleL2(c, 40, "bql/semantic") }},
+		Rules:       []func(*Ctx){ruleP5, ruleP5c, func(c *Ctx) { ruleP8(c, "bql/semantic") }, func(c *Ctx) { ruleP8b(c, "bql/semantic") }, func(c *Ctx) { ruleP10(c, "bql/semantic") }, ruleE1, func(c *Ctx) { ruleL7(c, "bql/semantic") }, func(c *Ctx) { ruleL2(c, 40, "bql/semantic") }},
 		Level:       "stage dominance (P5), rendering taint (P10), structural recursion (L7)",
 		Trusted:     []string{trustedCore},
 		NotDecided:  []string{"truth-functional correctness of booleanNode and of the expression builder (evaluating them is symbolic execution, a different family)", "that comparisons with a constant of another kind never hold"},
@@ -195,7 +195,7 @@ func init() {
 	reg(&Property{
 		ID: "C19",
 		Explanation: "Decides: M1 the cache key covers every field of LookupOptions and of the nested filter options and includes the options' identity; M2 handles of one graph share cache state; M3 a reset follows the forwarded write; M4 only successful, complete reads are cached; M5 op name = method = forwarded method, pairwise distinct, full UUIDs of all components, same map and key for load and store, caller's arguments forwarded; S3/S5 lock and channel discipline of the wrapper; L6 its goroutines are joined. Not decided: equality of answers over histories and interleavings.",
-		Rules:       []func(*Ctx){ruleM1, ruleM2, ruleM3, ruleM3b, ruleM4M5, ruleS3, ruleS5, func(c *Ctx) { ruleL6(c, 11, "storage/memoization") }},
+		Rules:       []func(*Ctx){ruleM1, ruleM1x, ruleM2, ruleM3, ruleM3b, ruleM4M5, ruleM4b, ruleS3, ruleS5, func(c *Ctx) { ruleL6(c, 11, "storage/memoization") }},
 		Level:       "field coverage of the key (M1), provenance of handed-out memoizers (M2), post-dominance of the reset (M3), edge facts on cache stores (M4), key/op/forwarding agreement (M5)",
 		Trusted:     []string{"the wrapped driver is the specification", trustedCore},
 		NotDecided:  []string{"equality of answers with the wrapped store over all histories", "interleavings (M3 is necessary, not sufficient)"},
@@ -203,7 +203,7 @@ func init() {
 	reg(&Property{
 		ID: "C20",
 		Explanation: "Decides: P8 no error of a driver call or module function is dropped on an Execute path, in the memoizer or the io package; L2 no success return that discards a received error (nil table with nil error); L6 failures neither leak goroutines nor leave a ranged-over channel open; M4 partial reads are not cached; IO1 reader errors. Not decided: bounded time under arbitrary fault sequences; what a driver may do after returning an error.",
-		Rules: []func(*Ctx){func(c *Ctx) { ruleP8(c, "bql/planner", "storage/memoization", "io") }, func(c *Ctx) { ruleP8b(c, "bql/planner", "storage/memoization", "io") }, func(c *Ctx) { ruleL6c(c, "bql/planner", "io", "storage/...") },
+		Rules: []func(*Ctx){func(c *Ctx) { ruleP8(c, "bql/planner", "storage/memoization", "io") }, func(c *Ctx) { ruleP8b(c, "bql/planner", "storage/memoization", "io") }, func(c *Ctx) { ruleL6c(c, "bql/planner", "io", "storage/...") }, ruleL6d,
 			func(c *Ctx) { ruleL2(c, 18, "bql/planner", "io") },
 			func(c *Ctx) { ruleL6(c, 25, "io", "bql/...", "storage/...") }, ruleM4M5, ruleIO1},
 		Level:      "error def-use (P8), (nil,nil) rule (L2), join typestate on error paths (L6), success-only caching (M4)",
